@@ -225,6 +225,9 @@ func treeGen(r *Run, rng *Rng) {
 	if r.Tier == "thorough" {
 		nAO, nUpd, maxLeaves = 60, 25, 120
 	}
+	// the node runs several syncers, each with trees of its own, at the same time
+	w.exec(r, "new")
+	w.exec(r, fmt.Sprintf("par %d %d", 4, maxLeaves*4))
 	for i := 0; i < nAO; i++ {
 		treeWorldAO(r, rng, w, maxLeaves, -1)
 		if i < 2 {
